@@ -14,7 +14,7 @@ from vlib.runner import Result
 PROPERTY = 'C14'
 LEVEL = 'exploration'
 RULE = ('state: batch B owned by alice in billing project bp1 (members alice, bob, inactive user ina), update 1 committed (job group 1, '
-        'jobs 1-2), update 2 open with its one job staged; carol only in bp3; dev (is_developer=1) and the user named auth in no project. '
+        'jobs 1-2), update 2 open with its one job staged (second state: not yet staged); carol only in bp3; dev (is_developer=1) and the user named auth in no project. '
         'EXHAUSTIVE: every route registered by front_end.routes at run time (HEAD included) x 13 callers (anonymous, malformed header, '
         'unknown bearer token, unknown cookie session, inactive, stranger, member, owner, developer, auth; owner via cookie with and '
         'without CSRF token, stranger via cookie) x every binding of path ids to existing / non-existing values x body variants (update '
@@ -95,6 +95,8 @@ def route_class(method, tmpl):
         return 'batch'
     if method not in SAFE and ('/billing_projects' in tmpl or '/billing_limits' in tmpl):
         return 'bp_admin'
+    if tmpl == '/billing_projects':
+        return 'bp_admin_page'      # the administration page itself: the statement does not say who else may look at it
     if method not in SAFE and tmpl.endswith(('/batches/create', '/batches/create-fast')):
         return 'batch_create'
     if '{billing_project}' in tmpl:
@@ -130,10 +132,12 @@ def expectation(method, tmpl, caller, bind, variant):
     if cls in ('batch', 'batch_owner_only'):
         if bind.get('batch_id') != 'B':
             return 'deny_missing'
+        if cls == 'batch_owner_only':
+            if role == 'owner':
+                return 'allow_owner'
+            return 'deny_owner_only' if role == 'member' else 'deny_nonmember_owner_only'
         if role not in ('owner', 'member'):
             return 'deny_nonmember'
-        if cls == 'batch_owner_only':
-            return 'allow_owner' if role == 'owner' else 'deny_owner_only'
         return 'allow_member'
     if cls == 'bp_admin':
         if role == 'developer':
@@ -141,6 +145,8 @@ def expectation(method, tmpl, caller, bind, variant):
         if role == 'auth':
             return 'allow_admin' if tmpl.startswith('/api/') else 'either'
         return 'deny_admin'
+    if cls == 'bp_admin_page':
+        return 'allow_admin' if role == 'developer' else 'either'
     if cls == 'batch_create':
         bp = variant.get('bp', 'bp1')
         return 'allow_create' if user in MEMBERS.get(bp, ()) else 'deny_bp'
@@ -167,15 +173,18 @@ class Ctx:
         self.side0 = None
         self.builds = 0
         self.routes = None
+        self.state = None
 
     def tables(self):
         extra = ['billing_projects', 'billing_project_users', 'job_group_attributes', 'job_attributes', 'globals', 'batch_bunches']
         return list(self.w.SNAP_TABLES) + [t for t in extra if t.lower() in self.w.engine.tables and t not in self.w.SNAP_TABLES]
 
-    async def _build(self):
+    async def _build(self, state='staged'):
         from vlib.batchsim.httpapp import HttpWorld
         if self.w is not None:
             await self.w.close()
+            self.w = None
+        self.state = state
         w = HttpWorld(n_tokens=2, users=('alice', 'bob'))
         await w.start()
         s = w.engine.connect()
@@ -185,7 +194,10 @@ class Ctx:
                 s.execute('INSERT INTO billing_project_users (billing_project, `user`, user_cs) VALUES (%s, %s, %s)', (bp, u, u))
         finally:
             w.engine.close_session(s)
-        for op in (['batch', 0, 0], ['submit', 0, [0], [{'g': -1}, {'g': 0}]], ['update', 0, [], [{'g': 0}]], ['jobs', 1]):
+        ops = [['batch', 0, 0], ['submit', 0, [0], [{'g': -1}, {'g': 0}]], ['update', 0, [], [{'g': 0}]]]
+        if state == 'staged':
+            ops.append(['jobs', 1])       # the open update's one job is already staged: a commit of update 2 would succeed
+        for op in ops:
             r = await w.apply(op)
             if not r.get('ok'):
                 raise RuntimeError(f'C14 set-up op {op} failed: {r}')
@@ -211,13 +223,14 @@ class Ctx:
         if self.routes is None:
             self.routes = w.route_table()
 
-    def ensure(self):
-        if self.w is None:
-            self.loop.run_until_complete(self._build())
+    def ensure(self, state=None):
+        state = state or self.state or 'staged'
+        if self.w is None or self.state != state:
+            self.loop.run_until_complete(self._build(state))
         return self.w
 
     def rebuild(self):
-        self.loop.run_until_complete(self._build())
+        self.loop.run_until_complete(self._build(self.state or 'staged'))
 
     def close(self):
         if self.w is not None:
@@ -314,7 +327,7 @@ class Ctx:
 
     def do(self, case):
         """Execute one case on a pristine world.  -> (response dict, changed tables, side-effect diff)"""
-        w = self.ensure()
+        w = self.ensure(case.get('state', 'staged'))
         method, tmpl = case['route']
         body, ctype = self.body_for(method, tmpl, case.get('variant'), case['caller'])
         headers, session = self.headers_for(case['caller'], method, tmpl, ctype)
@@ -337,7 +350,7 @@ class Ctx:
 # ---------------------------------------------------------------------------------------------- oracle
 DENY_STATUS = {
     'deny_auth': {401, 403}, 'deny_inactive': {401, 403}, 'deny_csrf': {401, 403}, 'deny_nonmember': {401, 403, 404},
-    'deny_admin': {401, 403}, 'deny_owner_only': set(range(400, 500)), 'deny_missing': set(range(400, 500)),
+    'deny_admin': {401, 403}, 'deny_owner_only': set(range(400, 500)), 'deny_nonmember_owner_only': {401, 403, 404}, 'deny_missing': set(range(400, 500)),
     'deny_bp': set(range(400, 500)), 'deny_bp_read': set(range(400, 500)),
 }
 DENY_CLAUSE = {
@@ -347,18 +360,37 @@ DENY_CLAUSE = {
     'deny_nonmember': "a user can read, cancel or delete a batch only if they belong to the batch's billing project",
     'deny_admin': 'only developers or the auth service can administer billing projects',
     'deny_owner_only': 'a user can add jobs, groups or updates to, or commit, only batches they own',
+    'deny_nonmember_owner_only': 'a user can add jobs, groups or updates to, or commit, only batches they own',
     'deny_missing': 'a request on a batch that does not exist gets an error and nothing changes',
     'deny_bp': 'a user can create a batch only in a billing project they belong to',
     'deny_bp_read': 'billing information is visible only to members of the billing project, developers and the auth service',
 }
 SIG = {'deny_auth': 'unauthenticated-allowed', 'deny_inactive': 'inactive-allowed', 'deny_csrf': 'missing-csrf-allowed',
-       'deny_nonmember': 'nonmember-allowed', 'deny_admin': 'nonadmin-allowed', 'deny_owner_only': 'nonowner-allowed',
+       'deny_nonmember': 'nonmember-allowed', 'deny_admin': 'nonadmin-allowed', 'deny_owner_only': 'nonowner-allowed', 'deny_nonmember_owner_only': 'nonowner-allowed',
        'deny_missing': 'missing-batch-not-an-error', 'deny_bp': 'create-in-foreign-project-allowed', 'deny_bp_read': 'foreign-project-read-allowed'}
 _SELECT = re.compile(r'^\s*\(?\s*(SELECT|WITH)\b', re.I)
 
 
 def is_login_redirect(resp):
     return resp['status'] in (302, 303, 307) and (resp.get('location') or '').startswith('https://auth.hail.test/user?next=')
+
+
+def _all_existing(case):
+    bind = case.get('bind') or {}
+    return all(bind[k] == EXISTING[k] for k in bind if k in EXISTING) and bind.get('update_id', 2) == 2
+
+
+def _refused(case, resp, method, tmpl):
+    """access-control refusal (as opposed to a business-rule 403 such as 'billing project ... is closed' or a 403 for an id that does
+    not exist): 401, login redirect, a bare 403, or any 403 when every id in the path exists and the route is not billing administration"""
+    st = resp['status']
+    if st == 401 or is_login_redirect(resp):
+        return True
+    if st == 403:
+        if resp.get('reason') in (None, 'Forbidden') or 'inactive' in str(resp.get('text')):
+            return True
+        return _all_existing(case) and route_class(method, tmpl) not in ('bp_admin', 'bp_admin_page')
+    return False
 
 
 def judge(case, exp, resp, changed, side_changed, hname, generated=False):
@@ -377,12 +409,16 @@ def judge(case, exp, resp, changed, side_changed, hname, generated=False):
     if exp.startswith('deny_'):
         nontrivial = method not in SAFE
         ok_status = set(DENY_STATUS[exp])
-        if generated and exp in ('deny_nonmember', 'deny_owner_only', 'deny_missing', 'deny_bp', 'deny_bp_read'):
+        if generated and exp in ('deny_nonmember', 'deny_owner_only', 'deny_nonmember_owner_only', 'deny_missing', 'deny_bp', 'deny_bp_read'):
             ok_status = set(range(400, 600))      # malformed ids / bodies may be refused with any error
         status_ok = st in ok_status or (exp in ('deny_auth', 'deny_inactive') and is_login_redirect(resp))
         if resp.get('notsupported'):
             fails.append((f'denied-request-reached-handler-sql:{hname}', DENY_CLAUSE[exp] + ' (before any handler work)',
                           f'{desc}; SQL so far: {stmts[-3:]}'))
+        elif not status_ok and st == 500 and resp.get('exc') and not writes and exp not in ('deny_auth', 'deny_inactive', 'deny_csrf', 'deny_admin'):
+            # the handler's own look-up crashed before it could answer: an error, nothing changed -> not an access-control violation,
+            # but recorded (see notes) because the ownership filter of such a route is not observable
+            classes.add(f'denied_by_server_error:{hname}')
         elif not status_ok:
             fails.append((f'{SIG[exp]}:{hname}', DENY_CLAUSE[exp], f'{desc}; body {str(resp.get("text"))[:200]}'))
         if changed or side_changed:
@@ -399,7 +435,7 @@ def judge(case, exp, resp, changed, side_changed, hname, generated=False):
     else:
         if resp.get('notsupported'):
             classes.add('allow_not_judged_unsupported_sql')
-        elif st in (401, 403) or is_login_redirect(resp):
+        elif _refused(case, resp, method, tmpl):
             role = CALLERS[caller].get('role', caller)
             fails.append((f'{role}-refused:{hname}' if exp != 'allow_public' else f'public-route-refused:{hname}',
                           {'allow_public': 'health, version/cloud information, documentation, legal pages and static assets need no authentication',
@@ -409,8 +445,7 @@ def judge(case, exp, resp, changed, side_changed, hname, generated=False):
                            'allow_create': 'a member of a billing project can create batches in it',
                            'allow_authenticated': 'an authenticated active user can use the endpoint'}[exp], desc))
         elif st == 404 and (method, tmpl) in CORE_NO_404 and exp in ('allow_member', 'allow_owner') \
-                and all((case.get('bind') or {}).get(k, EXISTING.get(k)) == EXISTING.get(k) for k in ('batch_id', 'job_id', 'job_group_id')) \
-                and (case.get('bind') or {}).get('update_id', 2) == 2:
+                and _all_existing(case):
             fails.append((f'{CALLERS[caller]["role"]}-refused:{hname}', 'member / owner access to an existing batch is not answered 404', desc))
         elif st is not None and st >= 500:
             classes.add('allow_errored_500')
@@ -447,16 +482,22 @@ def bindings(tmpl):
         yield dict(zip(names, combo))
 
 
+STATES = ('staged', 'unstaged')
+
+
 def enum_cases(routes):
-    for method, tmpl, hname in routes:
-        for bind in bindings(tmpl):
-            for variant in body_variants(method, tmpl):
-                for caller in CALLER_NAMES:
-                    yield dict(route=[method, tmpl], caller=caller, bind=bind, variant=variant), hname
+    for state in STATES:
+        for method, tmpl, hname in routes:
+            if state != 'staged' and route_class(method, tmpl) != 'batch_owner_only':
+                continue      # the second state differs only in the open update: relevant to the routes that add to / commit it
+            for bind in bindings(tmpl):
+                for variant in body_variants(method, tmpl):
+                    for caller in CALLER_NAMES:
+                        yield dict(route=[method, tmpl], caller=caller, bind=bind, variant=variant, state=state), hname
 
 
 def run_one(ctx, case, hname=None, generated=False):
-    ctx.ensure()
+    ctx.ensure(case.get('state', 'staged'))
     method, tmpl = case['route']
     if hname is None:
         hname = next((h for m, t, h in ctx.routes if m == method and t == tmpl), None)
@@ -473,7 +514,7 @@ N_SHARDS = 16
 
 
 def plan(tier):
-    n = 150 if tier == 'quick' else 4000
+    n = 800 if tier == 'quick' else 30000
     return [dict(kind='enum', part=i, nparts=12) for i in range(12)] + [dict(kind='hyp', n=n) for _ in range(4)]
 
 
@@ -505,7 +546,7 @@ def _strategy(routes):
             if draw(st.integers(0, 4)) == 0:
                 variant['drop'] = draw(st.integers(0, 3))
         caller = draw(st.sampled_from(deny_callers))
-        return dict(route=[m, t], caller=caller, bind=bind, variant=variant, gen=True)
+        return dict(route=[m, t], caller=caller, bind=bind, variant=variant, state=draw(st.sampled_from(STATES)), gen=True)
     return case()
 
 
